@@ -1,5 +1,5 @@
 import AkVerif.Gen.C10
-import AkVerif.Lemmas.PaletteOps
+import AkVerif.Lemmas.PaletteLazy
 /-!
 # C10 — rendering is pure: colours never change layout and output has no memory
 
